@@ -6,6 +6,8 @@
  *       "max" is INT64_MAX, any other line is its number; the file opened is the one the accessor is named after;
  *   readMemhightmpFromLines / readMemhightmpAt: exactly one line of exactly two space-separated tokens, else an error result
  *       and no token is indexed; token 0 "max" is INT64_MAX, otherwise token 0's number (not the whole line's);
+ *   readMempressureAt / readIopressureAt: open memory.pressure / io.pressure of THIS cgroup, parse exactly those lines for the
+ *       requested kind (some/full) once, return the parser's verdict unchanged; unreadable -> error, parser not consulted;
  *   readMemoryOomGroupAt: true exactly when the file is the single line "1"; never indexes;
  *   readKillPreferenceAt: PREFER if either prefer attribute is present (checked before any avoid attribute),
  *       AVOID if only an avoid attribute is, NORMAL otherwise; an xattr probe error is an error result. */
@@ -89,6 +91,22 @@ maybe_int64_t Fs__readMemhightmpAt(Fs_DirFd dirfd)
   __CPROVER_ensures((!g_lines.ok || g_lines.val.n != 1 || g_ntok != 2) ? !__CPROVER_return_value.ok : (__CPROVER_return_value.ok && __CPROVER_return_value.val == TMP_VALUE))
   __CPROVER_ensures(ghost_exc == 0);
 
+/* PSI files of a cgroup: the wrappers choose the file and hand its lines and the requested kind (some/full) to the parser */
+maybe_ResourcePressure g_psi; uint64_t g_psi_vid, g_psi_n; Fs_PressureType g_psi_type; uint64_t g_psi_calls;
+maybe_ResourcePressure Fs__readRespressureFromLines(vec_str_t lines, Fs_PressureType type)
+{ g_psi_calls = g_psi_calls + 1; g_psi_vid = lines.vid; g_psi_n = lines.n; g_psi_type = type; return g_psi; }
+#define PSI_READER_CONTRACT(file) \
+  __CPROVER_requires(ghost_exc == 0 && g_psi_calls == 0) \
+  __CPROVER_assigns(g_lines, g_opened, g_psi_vid, g_psi_n, g_psi_type, g_psi_calls) \
+  __CPROVER_ensures(g_opened == (file)) \
+  /* unreadable -> error result without parsing; else exactly the parser's verdict on THIS file's lines for the requested kind */ /*@C10,C15,C08*/ \
+  __CPROVER_ensures(!g_lines.ok ? (!__CPROVER_return_value.ok && g_psi_calls == 0) \
+      : (g_psi_calls == 1 && g_psi_vid == g_lines.val.vid && g_psi_n == g_lines.val.n && g_psi_type == type && \
+         __CPROVER_return_value.ok == g_psi.ok && (g_psi.ok ? __CPROVER_return_value.val == g_psi.val : 1))) \
+  __CPROVER_ensures(ghost_exc == 0)
+maybe_ResourcePressure Fs__readMempressureAt(Fs_DirFd dirfd, Fs_PressureType type) PSI_READER_CONTRACT(STR_memory_pressure);
+maybe_ResourcePressure Fs__readIopressureAt(Fs_DirFd dirfd, Fs_PressureType type) PSI_READER_CONTRACT(STR_io_pressure);
+
 /* xattr probes */
 maybe__Bool g_tp, g_up, g_ta, g_ua;   /* trusted.oomd_prefer, user.oomd_prefer, trusted.oomd_avoid, user.oomd_avoid */
 uint64_t g_probes;
@@ -127,3 +145,5 @@ void h_readMemminAt(void) { Fs_DirFd d; HAVOC_FR(); Fs__readMemminAt(d); CANARY;
 void h_readSwapMaxAt(void) { Fs_DirFd d; HAVOC_FR(); Fs__readSwapMaxAt(d); CANARY; }
 void h_readMemhightmpFromLines(void) { vec_str_t l; HAVOC_FR(); Fs__readMemhightmpFromLines(l); CANARY; }
 void h_readMemhightmpAt(void) { Fs_DirFd d; HAVOC_FR(); Fs__readMemhightmpAt(d); CANARY; }
+void h_readMempressureAt(void) { Fs_DirFd d; Fs_PressureType t; HAVOC_FR(); HAVOC(g_psi); g_psi_calls = 0; Fs__readMempressureAt(d, t); CANARY; }
+void h_readIopressureAt(void) { Fs_DirFd d; Fs_PressureType t; HAVOC_FR(); HAVOC(g_psi); g_psi_calls = 0; Fs__readIopressureAt(d, t); CANARY; }
